@@ -12,6 +12,16 @@ NOTES = ("All checks: bin/check <ID> --tier quick|thorough; VERIF_SEED seeds con
 _TLC = "explicit TLA+ spec + TLC: exhaustive design check, TLC-generated cases replayed into the Go code, recorded traces judged by a TLC trace module"
 
 CHECKS = {
+    "C01": {
+        "level": "model_checking",
+        "text": "GenFile.tla abstracts a generated file to (generator, package, import set, declaration names in order) and enumerates every sequence of Render fragments in bound "
+                "(9 declaration kinds x 7 whitespace noises x 4 reference modes x module variants); the specification computes the names and import set that must come out. Each case "
+                "becomes a package of a real module, generated through gengo's pipeline by a scripted generator; GenFileTrace.tla judges what was read back from disk: parses, header names "
+                "the generator, package clause, names in order, same specs/tokens/comments as the rendered text, gofmt and gofumpt fixed points (formatters as logged oracles), import "
+                "block and go build.",
+        "note": "The formatters and the compiler are oracles named by the statement itself and are not modelled; the spec supplies the input space and the abstract file. Bounded fragment sequences + random longer ones.",
+        "technique": _TLC,
+    },
     "C02": {
         "level": "fault_enumeration",
         "text": "Pipeline.tla models Execute/pkgExecute with one action per critical section and a fault (generator error, unparseable rendering, process death) chosen lazily at every callback; TLC checks for all behaviours in bound that failure or death leaves gengo.sum and the culprit's previous file untouched (C02_* invariants, FineRefinesMacro). PipelineHist.tla then enumerates every single fault position x package x generator x run shape x pre-state x layout; each history runs on a real module (death = os.Exit inside the callback, fresh process per run) and PipelineTrace.tla judges outcome, error text, gengo.sum bytes, culprit file, sibling effects and the follow-up run.",
@@ -57,7 +67,7 @@ CHECKS = {
                 "stable; ask-twice; printed qualifier = bound name; own package unqualified) and a code-shaped candidate search that TLC proves total for every addition "
                 "order (and shows partial without the fall-back). TLC enumerates every reference history over a collision-prone 14-path universe closed by each reference "
                 "kind; each is rendered through a real raw namer + tracker with the whole table logged after every step and ImportTrackerTrace.tla judges every step.",
-        "note": "Chosen names are bound from the log, not prescribed. Written-file side (import block of real generated files) is judged by the genfile family once C01 is built.",
+        "note": "Chosen names are bound from the log, not prescribed. The written-file side (import block of real generated files = referenced packages, distinct valid bound names, go build) is judged by the genfile family shared with C01.",
         "technique": _TLC,
     },
     "C09": {
